@@ -169,10 +169,21 @@ func init() {
 				for _, c := range Sites(fn, `^invoke:pkg/chain\.Signing\.VerifyWithPublicKey$`, false) {
 					a := c.Common().Args
 					if re(`^&?P1\.`+ad[2]+`\[:\]$`).MatchString(Desc(a[0])) && Desc(a[1]) == "P1.Signature" && Desc(a[2]) == "P1.PublicKey" {
+						ok = true
+						nFrom := 0
 						for _, p := range ReturnPaths(fn, 0, func(ssa.Value) bool { return true }) {
-							if cv := callValue(c); cv != nil && derives(p.Val, cv) {
-								ok = true
+							cv := callValue(c)
+							if cv != nil && derives(p.Val, cv) {
+								nFrom++
+								continue
 							}
+							if cb, isC := constBool(p.Val); isC && !cb {
+								continue // a failing path may say false
+							}
+							ok = false // a verdict that does not come from the verification call
+						}
+						if nFrom == 0 {
+							ok = false
 						}
 					}
 				}
@@ -181,7 +192,7 @@ func init() {
 			// thresholds
 			subs := []struct{ rel, fn, callee, thr string }{
 				{"pkg/beacon/dkg/result", "SubmittingMember.SubmitDKGResult", `^invoke:pkg/beacon/chain\.Interface\.SubmitDKGResult$`,
-					`^\+\(\(.*\.HonestThreshold \+ \(\(.*\.GroupSize - .*\.HonestThreshold\) / const:2\)\) <= len\(P2\)\)$`},
+					`^\+\(\([^ ]*\.HonestThreshold \+ \(\([^ ]*\.GroupSize - [^ ]*\.HonestThreshold\) / const:2\)\) <= len\(P2\)\)$`},
 				{"pkg/tbtc", "dkgResultSubmitter.SubmitResult", `^invoke:pkg/tbtc\.Chain\.SubmitDKGResult$`, `^\+\(P0\.groupParameters\.GroupQuorum <= len\(P4\)\)$`},
 				{"pkg/tbtc", "inactivityClaimSubmitter.SubmitClaim", `^invoke:pkg/tbtc\.Chain\.SubmitInactivityClaim$`, `^\+\(P0\.groupParameters\.HonestThreshold <= len\(P4\)\)$`},
 			}
